@@ -412,7 +412,7 @@ func Discharge(pre *Pre, fgs []*FuncGen, filter func(*Obligation) bool, timeoutM
 				os.MkdirAll(d, 0o755)
 				os.WriteFile(filepath.Join(d, strings.NewReplacer("/", "_", "#", "_", "@", "_").Replace(o.Name)+".smt2"), []byte(script), 0o644)
 			}
-			r := raceSolvers(script, o, timeoutMs*3, results[o], confirm)
+			r := raceSolvers(script, o, timeoutMs*5, results[o], confirm)
 			mu.Lock()
 			results[o] = r
 			mu.Unlock()
@@ -446,7 +446,7 @@ func Discharge(pre *Pre, fgs []*FuncGen, filter func(*Obligation) bool, timeoutM
 				if d := os.Getenv("GOVC_KEEP"); d != "" {
 					os.WriteFile(filepath.Join(d, strings.NewReplacer("/", "_", "#", "_", "@", "_").Replace(po.Name)+".smt2"), []byte(script), 0o644)
 				}
-				r := raceSolvers(script, po, timeoutMs*3, nil, false)
+				r := raceSolvers(script, po, timeoutMs*5, nil, false)
 				mu.Lock()
 				results[po] = r
 				mu.Unlock()
